@@ -195,6 +195,10 @@ Definition J (x k u d v a : Z) : Prop :=
   a * x ==m 1 * v /\ d * x ==m (-1) * u /\
   (forall t, (t | u) -> (t | v) -> (t | x) /\ (t | M62)).
 
+Ltac Jsplit :=
+  unfold J;
+  (split; [|split; [|split; [|split; [|split; [|split; [|split; [|split; [|split; [|split]]]]]]]]]).
+
 Lemma J_k_pos x k u d v a : J x k u d v a -> 1 <= k /\ 2 ^ k = 2 * 2 ^ (k - 1) /\ 2 ^ k <= 2 ^ 64.
 Proof.
   intros (Hk & Hu & Hv & _ & _ & Hs & _).
@@ -218,14 +222,11 @@ Proof.
   apply (halve_loop_spec x (-1) (M62 * (67 - k))) in E; try (unfold M62 in *; lia).
   2:{ rewrite Z.mul_add_distr_r, Hca, Hcd. apply eqm_refl_eq. ring. }
   destruct E as (Hd2 & Hu2 & Hu2' & Hu2o & Hu2d & Hc2).
-  unfold J. replace (66 - (k - 1)) with (67 - k) by ring.
-  repeat split; try assumption; try (unfold M62 in *; lia).
-  - apply Hdiv; [|assumption].
-    replace u with ((u - v) + v) by ring. apply Z.divide_add_r; [|assumption].
-    apply Z.divide_trans with u2; assumption.
-  - apply Hdiv; [|assumption].
-    replace u with ((u - v) + v) by ring. apply Z.divide_add_r; [|assumption].
-    apply Z.divide_trans with u2; assumption.
+  replace (66 - (k - 1)) with (67 - k) by ring.
+  Jsplit; try assumption; try (unfold M62 in *; lia).
+  intros t Ht1 Ht2. apply Hdiv; [|assumption].
+  replace u with ((u - v) + v) by ring. apply Z.divide_add_r; [|assumption].
+  apply Z.divide_trans with u2; assumption.
 Qed.
 
 Lemma ustep_term x k fuel u d v a :
@@ -287,14 +288,11 @@ Proof.
   2:{ rewrite Z.mul_add_distr_r, Hca, Hcd. apply eqm_refl_eq. ring. }
   destruct E as (Ha2 & Hv2 & Hv2' & Hv2o & Hv2d & Hc2).
   exists (k1 - 1). split; [lia|].
-  unfold J. replace (66 - (k1 - 1)) with (67 - k1) by ring.
-  repeat split; try assumption; try (unfold M62 in *; lia).
-  - apply Hdiv; [assumption|].
-    replace v with ((v - u1) + u1) by ring. apply Z.divide_add_r; [|assumption].
-    apply Z.divide_trans with v2; assumption.
-  - apply Hdiv; [assumption|].
-    replace v with ((v - u1) + u1) by ring. apply Z.divide_add_r; [|assumption].
-    apply Z.divide_trans with v2; assumption.
+  replace (66 - (k1 - 1)) with (67 - k1) by ring.
+  Jsplit; try assumption; try (unfold M62 in *; lia).
+  intros t Ht1 Ht2. apply Hdiv; [assumption|].
+  replace v with ((v - u1) + u1) by ring. apply Z.divide_add_r; [|assumption].
+  apply Z.divide_trans with v2; assumption.
 Qed.
 
 Lemma ostep_term x k fuel u d v a :
@@ -330,13 +328,12 @@ Proof.
   { rewrite Z.mul_sub_distr_r, eqm_M_0. apply eqm_refl_eq. ring. }
   assert (Hca : 0 * x ==m 1 * M62) by (rewrite eqm_M_0; reflexivity).
   destruct (Z.eqb_spec (x mod 2) 1) as [E|E].
-  - unfold J. repeat split; try assumption; try (unfold M62 in *; lia).
+  - Jsplit; try assumption; try (unfold M62 in *; lia). auto.
   - rewrite (wrap_small 128 (x + M62)) by (unfold M62 in *; lia).
     assert (Hdx : forall t, (t | x + M62) -> (t | M62) -> (t | x)).
     { intros t H1 H2. replace x with ((x + M62) - M62) by ring. apply Z.divide_sub_r; assumption. }
-    unfold J. repeat split; try assumption; try (unfold M62 in *; lia); auto.
-    rewrite Hcd. rewrite <- (Z.add_0_r (-1 * x)) at 1. rewrite Z.mul_add_distr_l.
-    rewrite eqm_M_0 at 2. reflexivity.
+    Jsplit; try assumption; try (unfold M62 in *; lia); auto.
+    rewrite Hcd, Z.mul_add_distr_l, eqm_M_0. apply eqm_refl_eq. ring.
 Qed.
 
 Lemma outer_spec x fuel s s' k : Jst x k s ->
@@ -385,7 +382,7 @@ Lemma final_term fuel a : 0 <= a <= 66 * M62 -> (66 <= fuel)%nat ->
   exists a', while_loop fuel (fun a => a >? f62_M) (fun a => wrap 128 (a - f62_M)) a = Some a'.
 Proof.
   intros Ha Hf.
-  pose (I := fun (k a : Z) => 0 <= k /\ 0 <= a <= k * M62).
+  pose (I := fun (k a : Z) => 0 <= k <= 66 /\ 0 <= a <= k * M62).
   apply (while_loop_term I) with (k := 66); [|unfold I; lia|lia].
   intros k s [Hk Hs] Hgt. rewrite M62_eq in *. apply Z.gtb_lt in Hgt.
   exists (k - 1). rewrite wrap_small by (unfold M62 in *; lia).
@@ -505,4 +502,21 @@ Proof.
   destruct (val62 b =? 0).
   - rewrite Z.mul_0_r. reflexivity.
   - rewrite Z.mul_1_r. apply Z.mod_small, val62_range.
+Qed.
+
+(* ---------- non-vacuity / sanity by evaluation ---------- *)
+Example f62_inv_example :
+  exists r, f62_fn_inv 66 (f62_new 3) = Some r /\ (f62_as_int r * 3) mod M62 = 1.
+Proof. eexists. split; vm_compute; reflexivity. Qed.
+Example f62_inv_example_lazy :   (* a word >= M and an even word *)
+  exists r r', f62_fn_inv 66 (f62_new 3 + M62) = Some r /\ (f62_as_int r * 3) mod M62 = 1 /\
+               f62_fn_inv 66 2 = Some r' /\ (val62 r' * val62 2) mod M62 = 1.
+Proof. eexists. eexists. repeat split; vm_compute; reflexivity. Qed.
+Example rel_prime_hyp_nonempty : rel_prime 2 M62.
+Proof.
+  apply Zis_gcd_intro; [apply Z.divide_1_l|apply Z.divide_1_l|].
+  intros t H2 HM. destruct H2 as [q Hq].
+  (* t divides 2 and the odd M62, hence t | M62 - 2*((M62-1)/2) = 1 *)
+  replace 1 with (M62 - ((M62 - 1) / 2) * 2) by reflexivity.
+  apply Z.divide_sub_r; [exact HM|]. apply Z.divide_mul_r. exists q. exact Hq.
 Qed.
